@@ -213,7 +213,38 @@ def run(chk: Check, ctx: Any) -> None:
             plain = bool(d) and res is not None and res[0] == "external" and str(res[1]).startswith("pygments.token.")
             if plain:
                 chk.hold("C17-R3", key, fake, f"plain token type {d}", node=r["node"])
-            elif isinstance(act, ast.Call) and dotted(act.func) in ("bygroups", "using", "default", "this"):
+            elif isinstance(act, ast.Call) and dotted(act.func) == "bygroups" and not act.keywords:
+                # bygroups yields match.group(i) for each argument: text survives iff the whole pattern is the
+                # concatenation of exactly these top-level capturing groups and no action is None
+                import re._constants as RC  # type: ignore[import-not-found]
+                outside = []
+                groups = []
+                for op, av in list(tree):
+                    if op is RC.SUBPATTERN and av[0] is not None:
+                        groups.append(av[0])
+                    elif op in (RC.AT, RC.ASSERT, RC.ASSERT_NOT):
+                        continue
+                    else:
+                        outside.append(op)
+                none_actions = [i for i, a in enumerate(act.args) if isinstance(a, ast.Constant) and a.value is None]
+                plain_args = all((dd := dotted(a)) and (rr := repo.resolve(mod, dd)) is not None and rr[0] == "external"
+                                 and str(rr[1]).startswith("pygments.token.") for i, a in enumerate(act.args) if i not in none_actions)
+                if outside:
+                    chk.violation("C17-R3", key, fake,
+                                  f"bygroups() emits only the text of the groups, but {r['pattern']!r} also matches text outside its "
+                                  "top-level groups: that text is consumed and never emitted", node=r["node"])
+                elif none_actions:
+                    chk.violation("C17-R3", key, fake, f"bygroups() has action None for group(s) {none_actions}: their text is dropped",
+                                  node=r["node"])
+                elif groups != list(range(1, len(act.args) + 1)):
+                    chk.violation("C17-R3", key, fake,
+                                  f"bygroups() has {len(act.args)} actions for top-level groups {groups}: some matched text is not emitted",
+                                  node=r["node"])
+                elif plain_args:
+                    chk.hold("C17-R3", key, fake, "bygroups over a pattern that is exactly its groups", node=r["node"])
+                else:
+                    chk.unknown("C17-R3", key, fake, f"bygroups arguments not recognised: {norm(act)}", node=r["node"])
+            elif isinstance(act, ast.Call) and dotted(act.func) in ("using", "default", "this"):
                 chk.unknown("C17-R3", key, fake, f"callback action {norm(act)}: emitted text not established", node=r["node"])
             else:
                 chk.unknown("C17-R3", key, fake, f"action {norm(act)} is not a recognised pygments token type", node=r["node"])
